@@ -1,7 +1,7 @@
 #!/usr/bin/env python3
 """C13 — Pareto dominance, non-dominated sorting, hypervolume: proofs (Properties_C13.v) +
 correspondence (extracted model: rank_list / fast_nds / hv_spec / hv2d / hv3d (3-D sweep) / wfg +
-wfg_limit (WFG recursion and its limit set) / contribs_spec / best_subset_hv vs. the freshly compiled
+wfg_limit (WFG recursion and its limit set) / hssp2d (2-D subset selection) / contribs_spec / best_subset_hv vs. the freshly compiled
 Shark algorithms on integer point sets) + an independent spec monitor in this file (ranks by longest
 dominance chain, hypervolume by slab-wise HSO)."""
 import os, sys, re, itertools
@@ -200,7 +200,12 @@ def compare(a, b, lines_holder=[None]):
                 got = sorted(val for val, _ in kvlist(v)); want = sorted(large if name.startswith("l_") else small)
                 if len(got) != len(want) or any(abs(g - w) > 1e-9 * scale for g, w in zip(got, want)): return False
         elif kind == "S":
-            pass      # non-unique optimum: decided by the monitor against best_subset_hv (see model_checks)
+            # the model of HypervolumeSubsetSelection2D (createFront, upper envelope, dynamic programme, back-tracking)
+            # selects exactly the points the code selects (n <= 16: std::sort is libstdc++'s insertion sort)
+            if "sel" in fx and fx["sel"] != "-":
+                if fx["sel"] == "EXC":
+                    if "EXC" not in y: return False
+                elif fy.get("sel") != fx["sel"]: return False
     return len(a) == len(b)
 
 # ------------------------------------------------------------------------------------------------
@@ -286,7 +291,8 @@ def model_checks(ck, cases, model_out):
     """consistency inside the model run: unproved model parts against the proved spec values"""
     bad = []
     stats = {"fast_nds=rank_list": 0, "contrib2d_ref=contrib_spec": 0, "best_subset(model)=best_subset(monitor)": 0,
-             "hv3d=hv_spec": 0, "wfg=hv_spec": 0, "wfg_limit=python_limit": 0}
+             "hv3d=hv_spec": 0, "wfg=hv_spec": 0, "wfg_limit=python_limit": 0,
+             "hv(hssp2d model selection)=best_subset_hv": 0}
     for c, (o, rc, _) in zip(cases, model_out):
         q, d, k, ref, P, hasE = parse_case(c)
         if not hasE: continue
@@ -319,6 +325,10 @@ def model_checks(ck, cases, model_out):
             keff = min(k, len(P))
             if int(f["best"]) != max(spec_hv(list(s), ref) for s in itertools.combinations(P, keff)):
                 bad.append(("best_subset_hv differs from Python brute force", c, r))
+            if f.get("hvsel", "-") != "-":
+                stats["hv(hssp2d model selection)=best_subset_hv"] += 1
+                if f["hvsel"] != f["best"]: bad.append(("hssp2d model selects a subset that is not of maximal hypervolume", c, r))
+                if f["sel"].count("1") > keff: bad.append(("hssp2d model selects more than k points", c, r))
     for what, c, r in bad[:3]:
         cf = ck.write_replay("model_%d.txt" % len(ck.violations), "\n".join(c) + "\n")
         ck.violation("model-consistency:" + what, {"case_file": cf, "case": c, "model_output": r}, "model-internal consistency: " + what, no_input=True)
@@ -329,7 +339,8 @@ def main():
     ck = Check(PID)
     ck.trusted = DEFAULT_TRUSTED + ["modelled not verified: std::sort / heap algorithms of libstdc++ ('some arrangement sorted by the key'; theorem C13_hv2d_correct_any_tie_order quantifies over all of them)",
                                     "modelled not verified: nonDominatedSort inside WFG's limitSet is taken to compute rank_list (proved for fastNonDominatedSort, differential test for the DC sort and the dispatcher: query R; the limit set itself is compared on every H query)",
-                                    "not proved, differential test only: DC sort, dispatchers, HOY, 3-D/MD contributions, 2-D subset selection"]
+                                    "modelled not verified: std::sort in createFront of the 2-D subset selection is libstdc++'s insertion sort (n <= 16; the selection vector is compared for n <= 16 only; the theorem covers every arrangement sorted by the first objective); double comparisons of intersection abscissae with the 1e-10 tolerance are exact rational comparisons on small integer coordinates",
+                                    "not proved, differential test only: DC sort, dispatchers, HOY, 3-D/MD contributions, overloads without reference point"]
     ck.assumptions = ["integer objective values (products of at most 5 integers <= 13 are exact in double, comparison is equality; MD contributions use exp(sum(log)) and are compared at 1e-9 relative to the total hypervolume)",
                       "reference point weakly dominated by every point (ref_i >= max coordinate, mostly strictly)",
                       "contribution queries: mutually non-dominated sets with duplicates, 1 <= k <= n, overloads WITH reference point in the main stream; overloads without reference point in a separate stream",
@@ -357,7 +368,7 @@ def main():
         touch = q != "R" and any(x == r for p in P for x, r in zip(p, ref))
         return "%s d=%d n=%d%s: %s" % (q, d, len(P), " point-on-reference-boundary" if touch else "", msg)
     r = correspond(ck, main_cases, model, exe, monitor, tmpd, compare=compare, impl_env=env,
-                   what="C13Model/C13Wfg/C13Sweep3d (rank_list, hv_spec, hv2d, hv3d, wfg, wfg_limit, contribs_spec, best_subset_hv) vs shark nonDominatedSort/Hypervolume*",
+                   what="C13Model/C13Wfg/C13Sweep3d (rank_list, hv_spec, hv2d, hv3d, wfg, wfg_limit, hssp2d, contribs_spec, best_subset_hv) vs shark nonDominatedSort/Hypervolume*",
                    search=search, keyfn=keyfn)
     stats = model_checks(ck, main_cases, r["model_out"])
 
@@ -410,7 +421,7 @@ def main():
     ck.cov["disagreements_checked"] = r["disagreements"] + r["monitor_failures"]
     ck.notes["query_mix"] = kinds; ck.notes["objectives_mix"] = dims; ck.notes["model_internal_checks"] = stats
     ck.finish(explanation="dominance, rank definition (existence/uniqueness/consistent fronts), fast sort, hv_spec invariances, the 2-D sweep, the 3-D sweep, "
-              "the WFG recursion and the 2-D contributions are proved (models run next to the code on every case); "
+              "the WFG recursion, the 2-D contributions and the 2-D subset selection (upper envelope + dynamic programme) are proved (models run next to the code on every case); "
               "everything else is an exact differential test against the proved spec functions")
 
 if __name__ == "__main__":
